@@ -185,6 +185,199 @@ theorem bool_reach : ∀ ab ac ad bc bd cd : Bool,
     (ad || (ab && bd) || (ac && cd) || (ab && bc && cd) || (ac && bc && bd)) = true := by
   decide
 
+/-! ### geometry of the square grid -/
+
+theorem pair_ne_iff (x z : Nat × Nat) : x ≠ z ↔ (x.1 ≠ z.1 ∨ x.2 ≠ z.2) := by
+  rw [Ne, Prod.ext_iff, not_and_or]
+
+/-- Two neighbours of a cell are never adjacent. -/
+theorem nbrs_not_adj {p x y : Nat × Nat} (hx : adjB p x = true) (hy : adjB p y = true) :
+    adjB x y = false := by
+  rw [← Bool.not_eq_true]
+  rw [adjB_eq_true] at hx hy ⊢
+  omega
+
+theorem sq_geom (x1 x2 y1 y2 z1 z2 w1 w2 : Nat)
+    (hxy : (x1 = y1 ∧ (x2 + 1 = y2 ∨ y2 + 1 = x2)) ∨ (x2 = y2 ∧ (x1 + 1 = y1 ∨ y1 + 1 = x1)))
+    (hyz : (y1 = z1 ∧ (y2 + 1 = z2 ∨ z2 + 1 = y2)) ∨ (y2 = z2 ∧ (y1 + 1 = z1 ∨ z1 + 1 = y1)))
+    (hzw : (z1 = w1 ∧ (z2 + 1 = w2 ∨ w2 + 1 = z2)) ∨ (z2 = w2 ∧ (z1 + 1 = w1 ∨ w1 + 1 = z1)))
+    (hxw : (x1 = w1 ∧ (x2 + 1 = w2 ∨ w2 + 1 = x2)) ∨ (x2 = w2 ∧ (x1 + 1 = w1 ∨ w1 + 1 = x1)))
+    (hxz : x1 ≠ z1 ∨ x2 ≠ z2) (hyw : y1 ≠ w1 ∨ y2 ≠ w2) :
+    (x1 + 1 = z1 ∨ z1 + 1 = x1) ∧ (x2 + 1 = z2 ∨ z2 + 1 = x2) ∧
+      ((y1 = x1 ∧ y2 = z2 ∧ w1 = z1 ∧ w2 = x2) ∨ (y1 = z1 ∧ y2 = x2 ∧ w1 = x1 ∧ w2 = z2)) := by
+  rcases hxy with ⟨h1, h2 | h2⟩ | ⟨h1, h2 | h2⟩ <;>
+  rcases hyz with ⟨h3, h4 | h4⟩ | ⟨h3, h4 | h4⟩ <;>
+  rcases hzw with ⟨h5, h6 | h6⟩ | ⟨h5, h6 | h6⟩ <;>
+  rcases hxw with ⟨h7, h8 | h8⟩ | ⟨h7, h8 | h8⟩ <;>
+  omega
+
+/-- A 4-cycle `x – y – z – w – x` with `x ≠ z`, `y ≠ w` is a 2 × 2 square: `x`, `z` are diagonal and `y`, `w`
+are the two other corners. -/
+theorem sq_cells {x y z w : Nat × Nat} (hxy : adjB x y = true) (hyz : adjB y z = true)
+    (hzw : adjB z w = true) (hxw : adjB x w = true) (hxz : x ≠ z) (hyw : y ≠ w) :
+    (x.1 + 1 = z.1 ∨ z.1 + 1 = x.1) ∧ (x.2 + 1 = z.2 ∨ z.2 + 1 = x.2) ∧
+      ((y.1 = x.1 ∧ y.2 = z.2 ∧ w.1 = z.1 ∧ w.2 = x.2) ∨ (y.1 = z.1 ∧ y.2 = x.2 ∧ w.1 = x.1 ∧ w.2 = z.2)) := by
+  rw [adjB_eq_true] at hxy hyz hzw hxw
+  rw [pair_ne_iff] at hxz hyw
+  exact sq_geom _ _ _ _ _ _ _ _ hxy hyz hzw hxw hxz hyw
+
+/-- The cells of such a 4-cycle fill a 2 × 2 square. -/
+theorem sq_mem (L : List (Nat × Nat)) {x y z w : Nat × Nat} (hx : x ∈ L) (hy : y ∈ L) (hz : z ∈ L)
+    (hw : w ∈ L) (hxy : adjB x y = true) (hyz : adjB y z = true)
+    (hzw : adjB z w = true) (hxw : adjB x w = true) (hxz : x ≠ z) (hyw : y ≠ w) :
+    ∃ y0 x0, (y0, x0) ∈ L ∧ (y0, x0 + 1) ∈ L ∧ (y0 + 1, x0) ∈ L ∧ (y0 + 1, x0 + 1) ∈ L := by
+  have h := sq_cells hxy hyz hzw hxw hxz hyw
+  obtain ⟨x1, x2⟩ := x
+  obtain ⟨y1, y2⟩ := y
+  obtain ⟨z1, z2⟩ := z
+  obtain ⟨w1, w2⟩ := w
+  simp only at h
+  obtain ⟨h1 | h1, h2 | h2, ⟨rfl, rfl, rfl, rfl⟩ | ⟨rfl, rfl, rfl, rfl⟩⟩ := h <;> subst h1 <;> subst h2
+  · exact ⟨_, _, hx, hy, hw, hz⟩
+  · exact ⟨_, _, hx, hw, hy, hz⟩
+  · exact ⟨_, _, hy, hx, hz, hw⟩
+  · exact ⟨_, _, hw, hx, hz, hy⟩
+  · exact ⟨_, _, hw, hz, hx, hy⟩
+  · exact ⟨_, _, hy, hz, hx, hw⟩
+  · exact ⟨_, _, hz, hw, hy, hx⟩
+  · exact ⟨_, _, hz, hy, hw, hx⟩
+
+/-- Among three pairwise distinct neighbours of a cell two lie in the same row or the same column. -/
+theorem opp_of_three {p x y z : Nat × Nat} (hx : adjB p x = true) (hy : adjB p y = true)
+    (hz : adjB p z = true) (hxy : x ≠ y) (hxz : x ≠ z) (hyz : y ≠ z) :
+    (x.1 = y.1 ∨ x.2 = y.2) ∨ (x.1 = z.1 ∨ x.2 = z.2) ∨ (y.1 = z.1 ∨ y.2 = z.2) := by
+  rw [adjB_eq_true] at hx hy hz
+  rw [pair_ne_iff] at hxy hxz hyz
+  omega
+
+/-- Two distinct neighbours of `p` in the same row or column have no other common neighbour. -/
+theorem common_opp {p w u v : Nat × Nat} (hu : adjB p u = true) (hv : adjB p v = true)
+    (hu' : adjB w u = true) (hv' : adjB w v = true) (huv : u ≠ v) (hopp : u.1 = v.1 ∨ u.2 = v.2) :
+    w = p := by
+  by_contra hne
+  have h := sq_cells (x := u) (y := p) (z := v) (w := w) (by rw [adjB_comm]; exact hu) hv
+    (by rw [adjB_comm]; exact hv') (by rw [adjB_comm]; exact hu') huv (Ne.symm hne)
+  omega
+
+/-! ### straight middles -/
+
+theorem two_of_three {x u v w p q : Nat × Nat} (hp : adjB x p = true) (hq : adjB x q = true) (hpq : p ≠ q)
+    (hp' : p = x ∨ p = u ∨ p = v ∨ p = w) (hq' : q = x ∨ q = u ∨ q = v ∨ q = w) :
+    ((adjB x u && adjB x v) || (adjB x u && adjB x w) || (adjB x v && adjB x w)) = true := by
+  rcases hp' with rfl | rfl | rfl | rfl <;> rcases hq' with rfl | rfl | rfl | rfl <;>
+    simp_all [adjB_self]
+
+/-- A straight middle `x` of `L ⊆ {x, u, v, w}` is adjacent to two of `u`, `v`, `w`. -/
+theorem mid_deg_two {L : List (Nat × Nat)} {x u v w : Nat × Nat}
+    (hL : ∀ q ∈ L, q = x ∨ q = u ∨ q = v ∨ q = w) (h : midB L x = true) :
+    ((adjB x u && adjB x v) || (adjB x u && adjB x w) || (adjB x v && adjB x w)) = true := by
+  rw [midB_iff] at h
+  obtain ⟨_, ⟨h1, hm, hp⟩ | ⟨h1, hm, hp⟩⟩ := h
+  · refine two_of_three (p := (x.1 - 1, x.2)) (q := (x.1 + 1, x.2)) ?_ ?_ ?_ (hL _ hm) (hL _ hp)
+    · rw [adjB_eq_true]; dsimp only; omega
+    · rw [adjB_eq_true]; dsimp only; omega
+    · rw [pair_ne_iff]; dsimp only; omega
+  · refine two_of_three (p := (x.1, x.2 - 1)) (q := (x.1, x.2 + 1)) ?_ ?_ ?_ (hL _ hm) (hL _ hp)
+    · rw [adjB_eq_true]; dsimp only; omega
+    · rw [adjB_eq_true]; dsimp only; omega
+    · rw [pair_ne_iff]; dsimp only; omega
+
+theorem toNat_le_of_imp {x y : Bool} (h : x = true → y = true) : x.toNat ≤ y.toNat := by
+  cases x <;> cases y <;> simp_all
+
+theorem ite_eq_toNat (b : Bool) : (if b = true then 1 else 0) = b.toNat := by
+  cases b <;> rfl
+
+theorem countP_four {α : Type} (f : α → Bool) (a b c d : α) :
+    List.countP f [a, b, c, d] = (f a).toNat + (f b).toNat + (f c).toNat + (f d).toNat := by
+  simp only [List.countP_cons, List.countP_nil, ite_eq_toNat]
+  omega
+
+theorem bool_mids : ∀ ab ac ad bc bd cd : Bool,
+    ab.toNat + ac.toNat + ad.toNat + bc.toNat + bd.toNat + cd.toNat = 3 →
+    (ab || ac || ad) = true → (ab || bc || bd) = true → (ac || bc || cd) = true →
+    (ad || bd || cd) = true →
+    ((ab && ac) || (ab && ad) || (ac && ad)).toNat + ((ab && bc) || (ab && bd) || (bc && bd)).toNat +
+      ((ac && bc) || (ac && cd) || (bc && cd)).toNat + ((ad && bd) || (ad && cd) || (bd && cd)).toNat ≤ 2 := by
+  decide
+
+/-! ### a cell with three neighbours -/
+
+theorem bool_three : ∀ pa pb pc pd : Bool, 3 ≤ pa.toNat + pb.toNat + pc.toNat + pd.toNat →
+    ((pa && pb && pc) || (pa && pb && pd) || (pa && pc && pd) || (pb && pc && pd)) = true := by
+  decide
+
+theorem bool_rest : ∀ xy xz xw yz yw zw : Bool,
+    xy.toNat + xz.toNat + xw.toNat + yz.toNat + yw.toNat + zw.toNat = 3 → xy = false → xz = false →
+    yz = false → xw = true ∧ yw = true ∧ zw = true := by
+  decide
+
+theorem tcell_aux {p x y z w : Nat × Nat} (hxy : x ≠ y) (hxz : x ≠ z) (hyz : y ≠ z)
+    (hx : adjB p x = true) (hy : adjB p y = true) (hz : adjB p z = true)
+    (hcnt : (adjB x y).toNat + (adjB x z).toNat + (adjB x w).toNat + (adjB y z).toNat + (adjB y w).toNat +
+      (adjB z w).toNat = 3) : w = p := by
+  obtain ⟨hxw, hyw, hzw⟩ := bool_rest _ _ _ _ _ _ hcnt (nbrs_not_adj hx hy) (nbrs_not_adj hx hz)
+    (nbrs_not_adj hy hz)
+  rw [adjB_comm] at hxw hyw hzw
+  rcases opp_of_three hx hy hz hxy hxz hyz with h | h | h
+  · exact common_opp hx hy hxw hyw hxy h
+  · exact common_opp hx hz hxw hzw hxz h
+  · exact common_opp hy hz hyw hzw hyz h
+
+/-! ### cuts of a connected induced subgraph -/
+
+theorem walk_cut {V : Type} (G : SimpleGraph V) (S : Set V) (A : V → Prop) :
+    ∀ {s t : S} (_ : (G.induce S).Walk s t), A s.1 → ¬ A t.1 →
+      ∃ x ∈ S, A x ∧ ∃ y ∈ S, ¬ A y ∧ G.Adj x y := by
+  intro s t w
+  induction w with
+  | nil => intro hs ht; exact absurd hs ht
+  | @cons s m t hadj _ ih =>
+    intro hs ht
+    by_cases hm : A m.1
+    · exact ih hm ht
+    · exact ⟨s.1, s.2, hs, m.1, m.2, hm, SimpleGraph.induce_adj.1 hadj⟩
+
+/-- CUT lemma: if the subgraph induced on `S` is connected, `u ∈ S` satisfies `A` and `v ∈ S` does not, then some
+edge inside `S` leads from `A` to its complement. -/
+theorem cut_of_preconnected {V : Type} (G : SimpleGraph V) (S : Set V) (A : V → Prop)
+    (hconn : (G.induce S).Preconnected) {u v : V} (hu : u ∈ S) (hv : v ∈ S) (huA : A u) (hvA : ¬ A v) :
+    ∃ x ∈ S, A x ∧ ∃ y ∈ S, ¬ A y ∧ G.Adj x y := by
+  obtain ⟨w⟩ := hconn ⟨u, hu⟩ ⟨v, hv⟩
+  exact walk_cut G S A w huA hvA
+
+theorem cut_list {L : List (Nat × Nat)} (hconn : (cellGraph.induce {x | x ∈ L}).Preconnected)
+    (A : Nat × Nat → Prop) {u v : Nat × Nat} (hu : u ∈ L) (hv : v ∈ L) (huA : A u) (hvA : ¬ A v) :
+    ∃ x ∈ L, A x ∧ ∃ y ∈ L, ¬ A y ∧ adjB x y = true := by
+  obtain ⟨x, hx, hxA, y, hy, hyA, hadj⟩ := cut_of_preconnected cellGraph {x | x ∈ L} A hconn hu hv huA hvA
+  exact ⟨x, hx, hxA, y, hy, hyA, (adjB_iff x y).2 hadj⟩
+
+/-- Connected (all seven cuts are crossed), no triangle, no 4-cycle: a tree, three edges. -/
+theorem bool_tree : ∀ ab ac ad bc bd cd : Bool,
+    (ab || ac || ad) = true → (ab || bc || bd) = true → (ac || bc || cd) = true → (ad || bd || cd) = true →
+    (ac || ad || bc || bd) = true → (ab || ad || bc || cd) = true → (ab || ac || bd || cd) = true →
+    (ab && bc && ac) = false → (ab && bd && ad) = false → (ac && cd && ad) = false →
+    (bc && cd && bd) = false →
+    (ab && bc && cd && ad) = false → (ab && bd && cd && ac) = false → (ac && bc && bd && ad) = false →
+    ab.toNat + ac.toNat + ad.toNat + bc.toNat + bd.toNat + cd.toNat = 3 := by
+  decide
+
+theorem no_triangle {x y z : Nat × Nat} : (adjB x y && adjB y z && adjB x z) = false := by
+  rw [← Bool.not_eq_true]
+  simp only [Bool.and_eq_true]
+  rintro ⟨⟨h1, h2⟩, h3⟩
+  rw [adjB_comm] at h1
+  rw [nbrs_not_adj h1 h2] at h3
+  exact Bool.false_ne_true h3
+
+theorem exists_nb {L : List (Nat × Nat)} {x u v w : Nat × Nat} (hu : u ∈ L) (hv : v ∈ L) (hw : w ∈ L)
+    (h : (adjB x u || adjB x v || adjB x w) = true) : ∃ q ∈ L, cellGraph.Adj x q := by
+  simp only [Bool.or_eq_true] at h
+  rcases h with (h | h) | h
+  · exact ⟨u, hu, (adjB_iff _ _).1 h⟩
+  · exact ⟨v, hv, (adjB_iff _ _).1 h⟩
+  · exact ⟨w, hw, (adjB_iff _ _).1 h⟩
+
 /-- Four cells, each with a neighbour among them, exactly three adjacent pairs: they are connected. -/
 theorem connected_of_counts (L : List (Nat × Nat)) (hnd : L.Nodup) (hlen : L.length = 4)
     (hnb : ∀ p ∈ L, ∃ q ∈ L, cellGraph.Adj p q) (hpc : pairCnt L = 3) :
@@ -235,18 +428,125 @@ three adjacent pairs. -/
 theorem counts_of_connected (L : List (Nat × Nat)) (hnd : L.Nodup) (hlen : L.length = 4)
     (hconn : (cellGraph.induce {x | x ∈ L}).Preconnected) (hsq : NoSq L) :
     (∀ p ∈ L, ∃ q ∈ L, cellGraph.Adj p q) ∧ pairCnt L = 3 := by
-  sorry
+  obtain ⟨a, b, c, d, rfl, hab, hac, had, hbc, hbd, hcd⟩ := exists_four L hnd hlen
+  have hba := hab.symm
+  have hca := hac.symm
+  have hda := had.symm
+  have hcb := hbc.symm
+  have hdb := hbd.symm
+  have hdc := hcd.symm
+  have ma : a ∈ [a, b, c, d] := by simp
+  have mb : b ∈ [a, b, c, d] := by simp
+  have mc : c ∈ [a, b, c, d] := by simp
+  have md : d ∈ [a, b, c, d] := by simp
+  -- the seven cuts
+  have c1 : (adjB a b || adjB a c || adjB a d) = true := by
+    obtain ⟨x, hx, hxA, y, hy, hyA, hadj⟩ := cut_list hconn (fun z => z = a) ma mb rfl hba
+    simp only [List.mem_cons, List.not_mem_nil, or_false] at hx hy
+    rcases hx with rfl | rfl | rfl | rfl <;> rcases hy with rfl | rfl | rfl | rfl <;> simp_all
+  have c2 : (adjB b a || adjB b c || adjB b d) = true := by
+    obtain ⟨x, hx, hxA, y, hy, hyA, hadj⟩ := cut_list hconn (fun z => z = b) mb ma rfl hab
+    simp only [List.mem_cons, List.not_mem_nil, or_false] at hx hy
+    rcases hx with rfl | rfl | rfl | rfl <;> rcases hy with rfl | rfl | rfl | rfl <;> simp_all
+  have c3 : (adjB c a || adjB c b || adjB c d) = true := by
+    obtain ⟨x, hx, hxA, y, hy, hyA, hadj⟩ := cut_list hconn (fun z => z = c) mc ma rfl hac
+    simp only [List.mem_cons, List.not_mem_nil, or_false] at hx hy
+    rcases hx with rfl | rfl | rfl | rfl <;> rcases hy with rfl | rfl | rfl | rfl <;> simp_all
+  have c4 : (adjB d a || adjB d b || adjB d c) = true := by
+    obtain ⟨x, hx, hxA, y, hy, hyA, hadj⟩ := cut_list hconn (fun z => z = d) md ma rfl had
+    simp only [List.mem_cons, List.not_mem_nil, or_false] at hx hy
+    rcases hx with rfl | rfl | rfl | rfl <;> rcases hy with rfl | rfl | rfl | rfl <;> simp_all
+  have c5 : (adjB a c || adjB a d || adjB b c || adjB b d) = true := by
+    obtain ⟨x, hx, hxA, y, hy, hyA, hadj⟩ :=
+      cut_list hconn (fun z => z = a ∨ z = b) ma mc (Or.inl rfl) (by simp [hca, hcb])
+    simp only [List.mem_cons, List.not_mem_nil, or_false] at hx hy
+    rcases hx with rfl | rfl | rfl | rfl <;> rcases hy with rfl | rfl | rfl | rfl <;> simp_all
+  have c6 : (adjB a b || adjB a d || adjB c b || adjB c d) = true := by
+    obtain ⟨x, hx, hxA, y, hy, hyA, hadj⟩ :=
+      cut_list hconn (fun z => z = a ∨ z = c) ma mb (Or.inl rfl) (by simp [hba, hbc])
+    simp only [List.mem_cons, List.not_mem_nil, or_false] at hx hy
+    rcases hx with rfl | rfl | rfl | rfl <;> rcases hy with rfl | rfl | rfl | rfl <;> simp_all
+  have c7 : (adjB a b || adjB a c || adjB d b || adjB d c) = true := by
+    obtain ⟨x, hx, hxA, y, hy, hyA, hadj⟩ :=
+      cut_list hconn (fun z => z = a ∨ z = d) ma mb (Or.inl rfl) (by simp [hba, hbd])
+    simp only [List.mem_cons, List.not_mem_nil, or_false] at hx hy
+    rcases hx with rfl | rfl | rfl | rfl <;> rcases hy with rfl | rfl | rfl | rfl <;> simp_all
+  -- no 4-cycle
+  have q1 : (adjB a b && adjB b c && adjB c d && adjB a d) = false := by
+    rw [← Bool.not_eq_true]
+    simp only [Bool.and_eq_true]
+    rintro ⟨⟨⟨h1, h2⟩, h3⟩, h4⟩
+    exact hsq (sq_mem _ ma mb mc md h1 h2 h3 h4 hac hbd)
+  have q2 : (adjB a b && adjB b d && adjB c d && adjB a c) = false := by
+    rw [← Bool.not_eq_true]
+    simp only [Bool.and_eq_true]
+    rintro ⟨⟨⟨h1, h2⟩, h3⟩, h4⟩
+    rw [adjB_comm] at h3
+    exact hsq (sq_mem _ ma mb md mc h1 h2 h3 h4 had hbc)
+  have q3 : (adjB a c && adjB b c && adjB b d && adjB a d) = false := by
+    rw [← Bool.not_eq_true]
+    simp only [Bool.and_eq_true]
+    rintro ⟨⟨⟨h1, h2⟩, h3⟩, h4⟩
+    rw [adjB_comm] at h2
+    exact hsq (sq_mem _ ma mc mb md h1 h2 h3 h4 hab hcd)
+  refine ⟨?_, ?_⟩
+  · intro p hp
+    simp only [List.mem_cons, List.not_mem_nil, or_false] at hp
+    rcases hp with rfl | rfl | rfl | rfl
+    · exact exists_nb mb mc md c1
+    · exact exists_nb ma mc md c2
+    · exact exists_nb ma mb md c3
+    · exact exists_nb ma mb mc c4
+  · rw [pairCnt_four hab hac had hbc hbd hcd]
+    rw [adjB_comm b a] at c2
+    rw [adjB_comm c a, adjB_comm c b] at c3
+    rw [adjB_comm c b] at c6
+    rw [adjB_comm d a, adjB_comm d b, adjB_comm d c] at c4
+    rw [adjB_comm d b, adjB_comm d c] at c7
+    refine bool_tree _ _ _ _ _ _ c1 c2 c3 c4 c5 c6 c7 no_triangle ?_ ?_ ?_ q1 q2 q3
+    · exact no_triangle
+    · exact no_triangle
+    · exact no_triangle
 
 /-- At most two cells of such a set are the middle of a straight triple. -/
 theorem mids_le_two (L : List (Nat × Nat)) (hnd : L.Nodup) (hlen : L.length = 4)
     (hnb : ∀ p ∈ L, ∃ q ∈ L, cellGraph.Adj p q) (hpc : pairCnt L = 3) :
     L.countP (midB L) ≤ 2 := by
-  sorry
+  obtain ⟨a, b, c, d, rfl, hab, hac, had, hbc, hbd, hcd⟩ := exists_four L hnd hlen
+  obtain ⟨hcnt, hda, hdb, hdc, hdd⟩ := bool_facts hab hac had hbc hbd hcd hnb hpc
+  have hm := bool_mids _ _ _ _ _ _ hcnt hda hdb hdc hdd
+  rw [countP_four]
+  have h1 := toNat_le_of_imp (mid_deg_two (L := [a, b, c, d]) (x := a) (u := b) (v := c) (w := d)
+    (by intro q hq; simpa using hq))
+  have h2 := toNat_le_of_imp (mid_deg_two (L := [a, b, c, d]) (x := b) (u := a) (v := c) (w := d)
+    (by intro q hq; simp at hq; tauto))
+  have h3 := toNat_le_of_imp (mid_deg_two (L := [a, b, c, d]) (x := c) (u := a) (v := b) (w := d)
+    (by intro q hq; simp at hq; tauto))
+  have h4 := toNat_le_of_imp (mid_deg_two (L := [a, b, c, d]) (x := d) (u := a) (v := b) (w := c)
+    (by intro q hq; simp at hq; tauto))
+  rw [adjB_comm b a] at h2
+  rw [adjB_comm c a, adjB_comm c b] at h3
+  rw [adjB_comm d a, adjB_comm d b, adjB_comm d c] at h4
+  omega
 
 /-- A cell with three neighbours in such a set belongs to it. -/
 theorem tcell_mem (L : List (Nat × Nat)) (hnd : L.Nodup) (hlen : L.length = 4)
     (hnb : ∀ p ∈ L, ∃ q ∈ L, cellGraph.Adj p q) (hpc : pairCnt L = 3)
     (p : Nat × Nat) (h3 : 3 ≤ L.countP (adjB p)) : p ∈ L := by
-  sorry
+  obtain ⟨a, b, c, d, rfl, hab, hac, had, hbc, hbd, hcd⟩ := exists_four L hnd hlen
+  obtain ⟨hcnt, -, -, -, -⟩ := bool_facts hab hac had hbc hbd hcd hnb hpc
+  rw [countP_four] at h3
+  have h := bool_three _ _ _ _ h3
+  simp only [Bool.or_eq_true, Bool.and_eq_true] at h
+  rcases h with ((⟨⟨h1, h2⟩, h3⟩ | ⟨⟨h1, h2⟩, h3⟩) | ⟨⟨h1, h2⟩, h3⟩) | ⟨⟨h1, h2⟩, h3⟩
+  · have : d = p := tcell_aux hab hac hbc h1 h2 h3 hcnt
+    subst this; simp
+  · have : c = p := tcell_aux hab had hbd h1 h2 h3 (by rw [adjB_comm d c]; omega)
+    subst this; simp
+  · have : b = p := tcell_aux hac had hcd h1 h2 h3 (by rw [adjB_comm c b, adjB_comm d b]; omega)
+    subst this; simp
+  · have : a = p := tcell_aux hbc hbd hcd h1 h2 h3
+      (by rw [adjB_comm b a, adjB_comm c a, adjB_comm d a]; omega)
+    subst this; simp
 
 end Cspuz.Proofs.C11LitsG
